@@ -129,11 +129,13 @@ NAME_SCHEMES = {
 }
 
 # ================================================================ C01 / C03 / C05: histories
-def history_workload(rnd, n, steps, after, before=(), bad=0.2, pools=('mix', 'int', 'str', 'tup', 'flt'), ops=None):
+def history_workload(rnd, n, steps, after, before=(), bad=0.2, pools=('mix', 'int', 'str', 'tup', 'flt'), ops=None, pad_every=7, quiet_every=3):
     scripts = []; stats = {}
     for i in range(n):
         pool = pools[i % len(pools)]
-        lines, st = gen.random_script(rnd, rnd.randint(*steps), pool=pool, bad=bad, after=after, before=before, ops=ops)
+        pad = 12 if (pad_every and i % pad_every == pad_every - 1) else 0
+        quiet = 0.35 if (quiet_every and i % quiet_every == quiet_every - 1) else 0.0
+        lines, st = gen.random_script(rnd, rnd.randint(*steps) if not pad else min(14, rnd.randint(*steps)), pool=pool, bad=bad, after=after, before=before, ops=ops, pad=pad, quiet=quiet)
         scripts.append(lines); merge_stats(stats, st)
     return scripts, stats
 
